@@ -301,7 +301,101 @@ func runC13(c *Ctx) {
 		if i < 2 {
 			c.Sample(map[string]any{"kind": "json", "document": doc, "written_back": out})
 		}
+		// K: the same document through the model, member by member (order, duplicates, how numbers are written)
+		if in, ok1 := jsonTokens(doc, false); ok1 && len(in) < 400 {
+			exp := "err"
+			if xerr == nil {
+				if o, ok2 := jsonTokens(out, true); ok2 {
+					exp = "ok " + strings.Join(o, " ")
+				} else {
+					exp = "unreadable-output"
+				}
+			}
+			c.Model("jsonrt", "jsonrt "+strings.Join(in, " "), exp, desc)
+		}
 	}
+}
+
+// a JSON document as prefix tokens, members in the order written and duplicates kept (see Driver/Json.lean); numbers as
+// coefficient and exponent (asWritten=false) or as their text (asWritten=true)
+func jsonTokens(doc string, asWritten bool) ([]string, bool) {
+	dec := json.NewDecoder(strings.NewReader(doc))
+	dec.UseNumber()
+	var out []string
+	var value func() bool
+	value = func() bool {
+		t, err := dec.Token()
+		if err != nil {
+			return false
+		}
+		switch x := t.(type) {
+		case nil:
+			out = append(out, "N")
+		case bool:
+			out = append(out, map[bool]string{true: "T", false: "F"}[x])
+		case json.Number:
+			if asWritten {
+				out = append(out, "#"+string(x))
+				return true
+			}
+			s := string(x)
+			neg := strings.HasPrefix(s, "-")
+			s = strings.TrimPrefix(s, "-")
+			exp := 0
+			if i := strings.IndexAny(s, "eE"); i >= 0 {
+				if _, err := fmt.Sscanf(s[i+1:], "%d", &exp); err != nil {
+					return false
+				}
+				s = s[:i]
+			}
+			if i := strings.IndexByte(s, '.'); i >= 0 {
+				exp -= len(s) - i - 1
+				s = s[:i] + s[i+1:]
+			}
+			out = append(out, fmt.Sprintf("#%s%s:%d", map[bool]string{true: "-", false: ""}[neg], s, exp))
+		case string:
+			out = append(out, "S"+hx(x))
+		case json.Delim:
+			at := len(out)
+			out = append(out, "")
+			n := 0
+			if x == '[' {
+				for dec.More() {
+					if !value() {
+						return false
+					}
+					n++
+				}
+				out[at] = fmt.Sprintf("[%d", n)
+			} else if x == '{' {
+				for dec.More() {
+					k, err := dec.Token()
+					ks, isStr := k.(string)
+					if err != nil || !isStr {
+						return false
+					}
+					out = append(out, "K"+hx(ks))
+					if !value() {
+						return false
+					}
+					n++
+				}
+				out[at] = fmt.Sprintf("{%d", n)
+			} else {
+				return false
+			}
+			if _, err := dec.Token(); err != nil { // the closing delimiter
+				return false
+			}
+		default:
+			return false
+		}
+		return true
+	}
+	if !value() {
+		return nil, false
+	}
+	return out, true
 }
 
 // modelParse compares envs.DateTimeFromString in a UTC environment (no DST, so the parsed fields are the
